@@ -332,7 +332,13 @@ class Gen:
                 if i + 1 < ns:
                     cl.append(T(","))
             if r.random() < 0.25:
-                cl.append(N("PATTERN_GUARD", T("if"), self.expr(d + 1)))
+                g = self.expr(d + 1)
+                if r.random() < 0.5:
+                    # a guard that ends in arithmetic on a literal, directly in front of the arrow: `n if n < limit - 1 ->`
+                    lit = N("LITERAL", T(r.choice(["1", "2", "0.5", "10"])))
+                    arith = N("BINARY_OP", N("VARIABLE", self.name_ref()), T(r.choice(["-", "+", "-.", "*"])), lit)
+                    g = arith if r.random() < 0.3 else N("BINARY_OP", N("VARIABLE", self.name_ref()), T(r.choice(["<", "==", ">=", "!="])), arith)
+                cl.append(N("PATTERN_GUARD", T("if"), g))
             cl += [T("->"), self.expr(d + 1)]
             ch.append(N("CLAUSE", cl))
         ch.append(T("}"))
